@@ -943,6 +943,36 @@ func scenarios() []scenario {
 			}
 			return fs
 		}},
+		{name: "S14-two-flushes-of-all-instances", body: func() {
+			// Two Flush RPCs over all instances at the same time. The order in which ONE iteration walks a map is an
+			// environment choice here (rt.SetMapOrderChoices): two iterations over the same instances may disagree, as
+			// they may with Go's randomised map iteration.
+			s := newServer()
+			r := s.VerifRIB()
+			r.AddEntry(D, ribx.Op(1, D, spb.AFTOperation_ADD, nh1))
+			r.AddEntry(V, ribx.Op(2, V, spb.AFTOperation_ADD, nh1))
+			rt.SetMapOrderChoices(true)
+			var wg vsync.WaitGroup
+			wg.Add(2)
+			for i := 0; i < 2; i++ {
+				rt.Go("flush", func() {
+					defer wg.Done()
+					_, err := s.Flush(context.Background(), &spb.FlushRequest{NetworkInstance: &spb.FlushRequest_All{All: &spb.Empty{}}, Election: &spb.FlushRequest_Override{Override: &spb.Empty{}}})
+					rt.Emit("flush", fmt.Sprint(err))
+				})
+			}
+			wg.Wait()
+			rt.SetMapOrderChoices(false)
+			afterwards(s)
+		}, check: func(x *rt.Exec) []mc.Fail {
+			fs := basic(x)
+			for _, e := range x.Events {
+				if e.Label == "flush" && e.Val.(string) != "<nil>" {
+					fs = append(fs, mc.Fail{Sig: "C11/flush-failed-under-concurrency", What: "one of two concurrent Flush(all, override) calls answered " + e.Val.(string)})
+				}
+			}
+			return fs
+		}},
 		{name: "S7-add-network-instance-vs-get-flush", body: func() {
 			s := newServer()
 			stub := wire.New(s)
